@@ -210,6 +210,8 @@ pub fn replay_full(rf: &RunFile) -> (Option<engine::Violation>, Option<Vec<u16>>
                 gen::gen_elem_sweep(seed)
             } else if run % 16 == 11 {
                 gen::gen_migration(seed)
+            } else if run == 77 {
+                gen::gen_volume(seed)
             } else {
                 gen::gen_run(seed, gen::Mode::C17)
             };
